@@ -338,14 +338,14 @@ struct Ex
 // observed deterministically in every flavour (and does not corrupt the heap of the harness) instead of only under ASan.
 template <class V> struct IdxGuard
 {
-   static const int CAN = 0x5ca1ab1e;
+   enum { CAN = 0x5ca1ab1e };
    V& v;
    int* orig;
    int origLen, cap, pad;
    std::vector<int> buf;
    IdxGuard(V& vv, int capacity) : v(vv), orig(vv.idx), origLen(vv.len), cap(capacity), pad(4 * capacity + 64)
    {
-      buf.assign((size_t)(cap + 2 * pad), CAN);
+      buf.assign((size_t)(cap + 2 * pad), (int)CAN);
       for(int i = 0; i < cap; i++) buf[(size_t)(pad + i)] = (i < v.num && i < origLen) ? orig[i] : 0;
       v.idx = buf.data() + pad;
       v.len = cap;
@@ -615,23 +615,29 @@ static void judgeIdx(C10Ctx& C, bool left, RhsV& b, const SSVectorBase<double>& 
       judge(C, left, b, false, sv, variant, ".sparse-view");
    }
 }
-static void agree(C10Ctx& C, bool left, const std::vector<double>& multi, const std::vector<double>& single, const std::string& variant, const char* which)
+// "the two- and three-right-hand-side variants return the same vectors as the corresponding single solves": in floating point two
+// different elimination orders can only agree up to the accuracy either of them has; the tightest bound that correct code is guaranteed
+// to meet is the one implied by two rounding-level residuals:  ||y_multi - y_single|| <= ||B^-1|| (thr(y_multi) + thr(y_single)).
+static void agree(C10Ctx& C, bool left, const std::vector<double>& multi, const std::vector<double>& single, const RhsV& b, const std::string& variant, const char* which)
 {
    Sink& S = sink();
    const Ex& E = *C.E;
    S.count("c10.agree." + variant + "." + C.ut);
-   double sc = std::max(dinf(multi), dinf(single)), diff = 0;
+   double diff = 0;
    for(size_t i = 0; i < multi.size(); i++)
    {
       double d = std::fabs(multi[i] - single[i]);
       if(!(d <= diff)) diff = d;   // NaN-propagating
    }
-   double cond = std::max(1.0, E.cond());
-   double thr = std::max(1e-12, 5e-14 * C.growth()) * cond * sc + 100.0 * E.n * C.eps0 * std::max(1.0, dq(left ? E.iOne : E.iInf)) / (double)C.F->markowitz();
+   double normM = dq(left ? E.nOne : E.nInf), normI = dq(left ? E.iOne : E.iInf), bn = dinf(b.d);
+   double rel = std::max(1e-9, 2e-12 * C.growth());
+   double allow = 64.0 * E.n * C.eps0 * (normM + 1.0 / (double)C.F->markowitz());
+   double thr = normI * (rel * (normM * dinf(multi) + bn) + rel * (normM * dinf(single) + bn) + 2 * allow);
    S.maxi("c10.agree/thr", diff / thr);
-   if(verbose) fprintf(stderr, "  agree %-32s %s diff=%.3g thr=%.3g scale=%.3g cond=%.3g\n", variant.c_str(), which, diff, thr, sc, cond);
+   if(multi == single) S.count("c10.agree.bitwise_equal");
+   if(verbose) fprintf(stderr, "  agree %-32s %s diff=%.3g thr=%.3g cond=%.3g\n", variant.c_str(), which, diff, thr, E.cond());
    if(!(diff <= thr))
-      S.viol("C10:" + variant + ":disagrees-with-single." + which + ":" + C.cell(), std::string("result ") + which + " differs from the single solve of the same right-hand side by " + ds(diff) + " (scale " + ds(sc) + ", cond " + ds(cond) + ")", C.replay());
+      S.viol("C10:" + variant + ":disagrees-with-single." + which + ":" + C.cell(), std::string("result ") + which + " differs from the single solve of the same right-hand side by " + ds(diff) + " (threshold " + ds(thr) + ", cond " + ds(E.cond()) + ")", C.replay());
 }
 
 // variant identifiers: every public solve overload of SLUFactor<double> (slufactor.h)
@@ -769,12 +775,12 @@ static void runVariant(C10Ctx& C, Rng& g, int v, RhsV* forced, SSVectorBase<doub
          C.overrun(ge, name, "rhs3");
       }
       judge(C, left, b2, wantFwd, y, name + ".y");
-      agree(C, left, valsOf(x), ref1, name, "x");
-      agree(C, left, y, ref2, name, "y");
+      agree(C, left, valsOf(x), ref1, b1, name, "x");
+      agree(C, left, y, ref2, b2, name, "y");
       if(three)
       {
          judge(C, left, b3, wantFwd, z, name + ".z");
-         agree(C, left, z, ref3, name, "z");
+         agree(C, left, z, ref3, b3, name, "z");
       }
       break;
    }
@@ -1426,8 +1432,14 @@ static void caseC11(long long k, Rng& g)
       return;
    }
    // ---- solves: every public overload of SLUFactorRational::solveRight / solveLeft (+ the 4update right solves without update)
+   typedef IdxGuard<SSVectorRational> GR;
+   auto ovr = [&](const GR & gd, const std::string & variant, const char* which)
+   {
+      S.count("c11.index_guard.checked");
+      int b = gd.below(), a = gd.above();
+      if(a || b) S.viol("C11:" + variant + ":index-array-overrun." + which + ":{utype=" + ut + "}", std::to_string(b) + " store(s) below and " + std::to_string(a) + " above the caller's index array of " + which + " (SSVectorRational(" + std::to_string(n) + "), family " + fam + ")", C.replay());
+   };
    int rounds = n <= 16 ? 2 : 1;
-   std::vector<Q> keep1, keep2, keep3, kx1, kx2, kx3;
    for(int round = 0; round < rounds; round++)
    {
       for(int left = 0; left < 2; left++)
@@ -1441,6 +1453,16 @@ static void caseC11(long long k, Rng& g)
             S.count("c11.oracle_failed");
             continue;
          }
+         if(verbose)
+         {
+            fprintf(stderr, "round %d %s b1:", round, left ? "left" : "right");
+            for(auto& q : b1) fprintf(stderr, " %s", qs(q).substr(0, 30).c_str());
+            fprintf(stderr, "\n b2:");
+            for(auto& q : b2) fprintf(stderr, " %s", qs(q).substr(0, 30).c_str());
+            fprintf(stderr, "\n b3:");
+            for(auto& q : b3) fprintf(stderr, " %s", qs(q).substr(0, 30).c_str());
+            fprintf(stderr, "\n");
+         }
          std::string side = left ? "solveLeft" : "solveRight";
          {
             // dense: VectorRational x, VectorRational b
@@ -1453,13 +1475,15 @@ static void caseC11(long long k, Rng& g)
             if(valsOfR(bv) != b1) S.viol("C11:" + side + ".dense:rhs-modified:{utype=" + ut + "}", "const right-hand side was changed", C.replay());
          }
          {
-            // sparse: SSVectorRational x, SVectorRational b
+            // sparse: SSVectorRational x, SVectorRational b  (the call behind getBasisInverseRow/ColRational)
             SSVectorRational xs(n);
             DSVectorRational bs = toSVR(b2);
+            GR gx(xs, n);
             if(left) F.solveLeft(xs, bs);
             else F.solveRight(xs, bs);
             exactCmp(C, valsOfR(xs), x2, side + ".sparse");
             idxCmpR(C, xs, side + ".sparse");
+            ovr(gx, side + ".sparse", "x");
          }
          if(left)
          {
@@ -1468,10 +1492,13 @@ static void caseC11(long long k, Rng& g)
                VectorRational y(n);
                DSVectorRational s1 = toSVR(b1);
                fillSSR(d, b2);
+               GR gx(xs, n), gd(d, n);
                F.solveLeft(xs, y, s1, d);
                exactCmp(C, valsOfR(xs), x1, "solveLeft2.x");
                idxCmpR(C, xs, "solveLeft2.x");
                exactCmp(C, valsOfR(y), x2, "solveLeft2.y");
+               ovr(gx, "solveLeft2", "x");
+               ovr(gd, "solveLeft2", "rhs2");
             }
             {
                SSVectorRational xs(n), d(n), e(n);
@@ -1479,11 +1506,15 @@ static void caseC11(long long k, Rng& g)
                DSVectorRational s1 = toSVR(b3);
                fillSSR(d, b1);
                fillSSR(e, b2);
+               GR gx(xs, n), gd(d, n), ge(e, n);
                F.solveLeft(xs, y, z, s1, d, e);
                exactCmp(C, valsOfR(xs), x3, "solveLeft3.x");
                idxCmpR(C, xs, "solveLeft3.x");
                exactCmp(C, valsOfR(y), x1, "solveLeft3.y");
                exactCmp(C, valsOfR(z), x2, "solveLeft3.z");
+               ovr(gx, "solveLeft3", "x");
+               ovr(gd, "solveLeft3", "rhs2");
+               ovr(ge, "solveLeft3", "rhs3");
             }
          }
          else
@@ -1491,57 +1522,50 @@ static void caseC11(long long k, Rng& g)
             {
                SSVectorRational xs(n);
                DSVectorRational s1 = toSVR(b3);
+               GR gx(xs, n);
                F.solveRight4update(xs, s1);
                exactCmp(C, valsOfR(xs), x3, "solveRight4update");
                idxCmpR(C, xs, "solveRight4update");
+               ovr(gx, "solveRight4update", "x");
             }
-            if(round == 0)
+            // the two- and three-right-hand-side 4update right solves have no caller inside SoPlex; exercised in every 4th case
+            if(k % 4 == 1 && round == 0)
             {
-               keep1 = b1;
-               keep2 = b2;
-               keep3 = b3;
-               kx1 = x1;
-               kx2 = x2;
-               kx3 = x3;
+               S.count("c11.multi_rhs_4update_cases");
+               {
+                  SSVectorRational xs(n), d(n);
+                  VectorRational y(n);
+                  DSVectorRational s1 = toSVR(b1);
+                  fillSSR(d, b2);
+                  GR gx(xs, n), gd(d, n);
+                  F.solve2right4update(xs, y, s1, d);
+                  exactCmp(C, valsOfR(xs), x1, "solve2right4update.x");
+                  idxCmpR(C, xs, "solve2right4update.x");
+                  exactCmp(C, valsOfR(y), x2, "solve2right4update.y");
+                  ovr(gx, "solve2right4update", "x");
+                  ovr(gd, "solve2right4update", "rhs2");
+               }
+               {
+                  SSVectorRational xs(n), d(n), e(n);
+                  VectorRational y(n), z(n);
+                  DSVectorRational s1 = toSVR(b2);
+                  fillSSR(d, b3);
+                  fillSSR(e, b1);
+                  GR gx(xs, n), gd(d, n), ge(e, n);
+                  F.solve3right4update(xs, y, z, s1, d, e);
+                  exactCmp(C, valsOfR(xs), x2, "solve3right4update.x");
+                  idxCmpR(C, xs, "solve3right4update.x");
+                  exactCmp(C, valsOfR(y), x3, "solve3right4update.y");
+                  exactCmp(C, valsOfR(z), x1, "solve3right4update.z");
+                  ovr(gx, "solve3right4update", "x");
+                  ovr(gd, "solve3right4update", "rhs2");
+                  ovr(ge, "solve3right4update", "rhs3");
+               }
             }
          }
       }
    }
    if(k < 6) S.sample(Json().str("family", fam).num("n", n).str("utype", ut).num("max_entry_bits", (long long)maxbits).boolean("regular", regular).done());
-   // The two- and three-right-hand-side *4update* right solves of SLUFactorRational (no caller inside SoPlex).  They overrun their index
-   // arrays (see known_findings.d/C11.json), so they are exercised last, in every 4th case, and only in the ASan build where the overrun
-   // is reported at the faulting store instead of corrupting the heap of the harness.
-#if defined(__SANITIZE_ADDRESS__)
-   if(k % 4 == 1 && !keep1.empty())
-   {
-      const std::vector<Q>& b1 = keep1, &b2 = keep2, &b3 = keep3, &x1 = kx1, &x2 = kx2, &x3 = kx3;
-      S.count("c11.multi_rhs_4update_cases");
-            {
-      SSVectorRational xs(n), d(n);
-      VectorRational y(n);
-      DSVectorRational s1 = toSVR(b1);
-      fillSSR(d, b2);
-      F.solve2right4update(xs, y, s1, d);
-      exactCmp(C, valsOfR(xs), x1, "solve2right4update.x");
-      idxCmpR(C, xs, "solve2right4update.x");
-      exactCmp(C, valsOfR(y), x2, "solve2right4update.y");
-   }
-   {
-      SSVectorRational xs(n), d(n), e(n);
-      VectorRational y(n), z(n);
-      DSVectorRational s1 = toSVR(b2);
-      fillSSR(d, b3);
-      fillSSR(e, b1);
-      F.solve3right4update(xs, y, z, s1, d, e);
-      exactCmp(C, valsOfR(xs), x2, "solve3right4update.x");
-      idxCmpR(C, xs, "solve3right4update.x");
-      exactCmp(C, valsOfR(y), x3, "solve3right4update.y");
-      exactCmp(C, valsOfR(z), x1, "solve3right4update.z");
-   }
-   }
-#else
-   S.count("c11.multi_rhs_4update_skipped_non_asan");
-#endif
    S.end(k);
 }
 
